@@ -40,8 +40,8 @@ type Loaded struct {
 	pkgPath   string
 	fset      *token.FileSet
 	harnesses []*HarnessDecl
-	repl      map[string]*replacement // normalised callee name -> replacement
-	replCache map[*ssa.Function]*replacement
+	repl      map[string][]*replacement // normalised callee name -> replacements (one per group)
+	replCache map[*ssa.Function][]*replacement
 	replGlobs []*replacement
 	skipInit  map[string]bool
 
@@ -49,6 +49,8 @@ type Loaded struct {
 	errorStringType        types.Type
 	runtimeErrType         types.Type
 	utf8DecodeRuneInString *ssa.Function
+	visible                []string
+	visCache               map[*ssa.Function]bool
 	overlayFiles           []string
 	srcFiles               map[string]bool
 }
@@ -147,7 +149,7 @@ func LoadPackage(repo, harnessRoot, relPkg string) (*Loaded, error) {
 	prog, spkgs := ssautil.AllPackages(pkgs, ssa.InstantiateGenerics)
 	prog.Build()
 	ld := &Loaded{prog: prog, pkg: spkgs[0], pkgPath: pkgs[0].PkgPath, fset: pkgs[0].Fset,
-		repl: map[string]*replacement{}, replCache: map[*ssa.Function]*replacement{}, skipInit: map[string]bool{}, overlayFiles: ofiles,
+		repl: map[string][]*replacement{}, replCache: map[*ssa.Function][]*replacement{}, skipInit: map[string]bool{}, overlayFiles: ofiles,
 		srcFiles: map[string]bool{}}
 	if ld.pkg == nil {
 		return nil, fmt.Errorf("no ssa package for %s", relPkg)
@@ -231,6 +233,8 @@ func LoadPackage(repo, harnessRoot, relPkg string) (*Loaded, error) {
 			ld.addRepl(r)
 		case "skipinit":
 			ld.skipInit[p.arg] = true
+		case "visible":
+			ld.visible = append(ld.visible, norm(p.arg))
 		}
 	}
 	return ld, nil
@@ -240,7 +244,7 @@ func (ld *Loaded) addRepl(r *replacement) {
 	if strings.HasSuffix(r.pattern, "*") {
 		ld.replGlobs = append(ld.replGlobs, r)
 	} else {
-		ld.repl[r.pattern] = r
+		ld.repl[r.pattern] = append(ld.repl[r.pattern], r)
 	}
 }
 
@@ -253,8 +257,8 @@ func fnKey(fn *ssa.Function) (string, string) {
 	return k1, k2
 }
 
-// replacement returns the model registered for fn (by exact name, generic origin name or prefix glob).
-func (ld *Loaded) replacement(fn *ssa.Function) *replacement {
+// replacements returns the models registered for fn (by exact name, generic origin name or prefix glob).
+func (ld *Loaded) replacements(fn *ssa.Function) []*replacement {
 	if len(ld.repl) == 0 && len(ld.replGlobs) == 0 {
 		return nil
 	}
@@ -265,23 +269,30 @@ func (ld *Loaded) replacement(fn *ssa.Function) *replacement {
 		return r
 	}
 	k1, k2 := fnKey(fn)
-	r = ld.repl[k1]
-	if r == nil {
-		r = ld.repl[k2]
+	r = append(r, ld.repl[k1]...)
+	if k2 != k1 {
+		r = append(r, ld.repl[k2]...)
 	}
-	if r == nil {
-		for _, g := range ld.replGlobs {
-			p := strings.TrimSuffix(g.pattern, "*")
-			if strings.HasPrefix(k1, p) || strings.HasPrefix(k2, p) {
-				r = g
-				break
-			}
+	for _, g := range ld.replGlobs {
+		p := strings.TrimSuffix(g.pattern, "*")
+		if strings.HasPrefix(k1, p) || strings.HasPrefix(k2, p) {
+			r = append(r, g)
 		}
 	}
 	replMu.Lock()
 	ld.replCache[fn] = r
 	replMu.Unlock()
 	return r
+}
+
+// replacement picks the replacement that is active for the running harness (ungrouped ones always are).
+func (ld *Loaded) replacement(fn *ssa.Function, groups map[string]bool) *replacement {
+	for _, r := range ld.replacements(fn) {
+		if r.group == "" || groups[r.group] {
+			return r
+		}
+	}
+	return nil
 }
 
 // intrinsic returns the engine-level handler for fn, if any.
@@ -322,6 +333,35 @@ func (ld *Loaded) intrinsicSlow(fn *ssa.Function) intrinsicFn {
 	return nil
 }
 
+// isVisible: calls at which thread mode may switch threads (//verif:visible patterns, plus sync/atomic).
+func (ld *Loaded) isVisible(fn *ssa.Function) bool {
+	visMu.RLock()
+	v, ok := ld.visCache[fn]
+	visMu.RUnlock()
+	if ok {
+		return v
+	}
+	k1, k2 := fnKey(fn)
+	v = false
+	for _, p := range ld.visible {
+		if strings.HasSuffix(p, "*") {
+			pp := strings.TrimSuffix(p, "*")
+			if strings.HasPrefix(k1, pp) || strings.HasPrefix(k2, pp) {
+				v = true
+			}
+		} else if p == k1 || p == k2 {
+			v = true
+		}
+	}
+	visMu.Lock()
+	if ld.visCache == nil {
+		ld.visCache = map[*ssa.Function]bool{}
+	}
+	ld.visCache[fn] = v
+	visMu.Unlock()
+	return v
+}
+
 // initOpaque: callees that package initialisers may not run (their results become opaque values).
 func (ld *Loaded) initOpaque(fn *ssa.Function) bool {
 	if fn.Pkg == nil {
@@ -336,4 +376,27 @@ func (ld *Loaded) initOpaque(fn *ssa.Function) bool {
 		return true
 	}
 	return false
+}
+
+// findFunc locates a function or method of the package under test by the tail of its full name,
+// e.g. "(*Server).netServe".
+func (ld *Loaded) findFunc(suffix string) *ssa.Function {
+	for _, m := range ld.pkg.Members {
+		switch x := m.(type) {
+		case *ssa.Function:
+			if x.RelString(ld.pkg.Pkg) == suffix || strings.HasSuffix(x.String(), suffix) {
+				return x
+			}
+		case *ssa.Type:
+			for _, t := range []types.Type{x.Type(), types.NewPointer(x.Type())} {
+				ms := ld.prog.MethodSets.MethodSet(t)
+				for i := 0; i < ms.Len(); i++ {
+					if fn := ld.prog.MethodValue(ms.At(i)); fn != nil && (fn.RelString(ld.pkg.Pkg) == suffix || strings.HasSuffix(fn.String(), suffix)) {
+						return fn
+					}
+				}
+			}
+		}
+	}
+	return nil
 }
